@@ -2,7 +2,7 @@
 From Coq Require Import List NArith Bool.
 From Frugal Require Import Bytes Wire Skip Values Desc Spec Encode Decode Checks Tags State Bitset Alloc DescMap Conc LegacyDefs.
 From Frugal.gen Require Import Params.
-From Frugal.proofs Require Import GenOk BytesWire EncodeSpec SizeExact SkipPut DecodeSafe DecodeRefines RoundTrip Corollaries StateProofs BitsetProofs AllocProofs DescMapProofs ConcProofs BufferContract.
+From Frugal.proofs Require Import GenParams GenTables RoundTrip.
 From Frugal.props Require Import Examples.
 From Frugal.proofs Require Import MapOrder.
 Import ListNotations.
@@ -59,3 +59,8 @@ Example C01_order_matters_for_wide_enum_keys :
      = DOk (VT [VM (Some [(VS 1, VS 10)])] [], len (append_struct env_enum 0 v_enum')) []
   /\ ~ vperm (VT [VM (Some [(VS 1, VS 20)])] []) (VT [VM (Some [(VS 1, VS 10)])] []).
 Proof. pose proof order_matters_without_keys_distinct as H. tauto. Qed.
+
+(* the side conditions on the generated constants and tables that the theorems above assume hold
+   for what the translator read from the sources of this run *)
+Theorem C01_side_conditions : params_ok = true /\ tables_ok = true.
+Proof. split; [exact params_ok_holds | exact tables_ok_holds]. Qed.
